@@ -9,6 +9,7 @@ CONSTANTS
 INIT Init
 NEXT Next
 CHECK_DEADLOCK FALSE
+PROPERTY Prop_Frame
 INVARIANT Inv_CacheCoherent
 INVARIANT Inv_PdfNormalised
 INVARIANT Inv_ReportedMass
